@@ -3,7 +3,7 @@ package main
 // C08: each Send / SendRaw / SendIQ puts exactly the serialised stanza on the wire
 // once, whole, also concurrently; failed writes are reported.  Model: Model/Send.v.
 //
-// Five case modes:
+// Six case modes:
 //   seq    op history on a real Client / Component over a recording transport whose
 //          Write is XMPPTransport.Write's (readWriter = socket, or the real streamLogger
 //          around socket + log), write faults (error after n bytes / short count) on
@@ -11,6 +11,8 @@ package main
 //   logger Write calls straight on xmpp.VerifStreamLogger(conn, log)
 //   mem    concurrent senders on the in-memory recording transport
 //   tcp    concurrent senders over the real XMPPTransport to a loopback TCP sink
+//   wsfault op history over the real WebsocketTransport whose TCP connection is made to
+//          fail every write from some op on (connection reset not yet noticed)
 //   ws     concurrent senders over the real WebsocketTransport to a loopback
 //          websocket sink (nhooyr.io/websocket, the module /repo uses)
 
@@ -30,6 +32,7 @@ import (
 	"sort"
 	"strings"
 	"sync"
+	"sync/atomic"
 	"time"
 
 	xmpp "gosrc.io/xmpp"
@@ -70,6 +73,7 @@ type c08In struct {
 	PerSender int   `json:"per,omitempty"`
 	MaxLen    int   `json:"maxlen,omitempty"`
 	Seed      int64 `json:"seed,omitempty"`
+	FailFrom int `json:"failfrom,omitempty"` // wsfault: every socket write fails from this op on
 	// filled by Run: the sender index of every element on the wire, in wire order
 	// (the schedule the run exhibited; handed to the model's LTS runner)
 	Sched []int `json:"sched,omitempty"`
@@ -83,12 +87,12 @@ func (c08) ID() string    { return "C08" }
 func (c08) RunFn() string { return "run_C08" }
 func (c08) Workers() int  { return 4 }
 func (c08) Rule() string {
-	return "seq: histories of 1-12 ops (Send of Message/Presence/IQ with random attributes and text incl. XML metacharacters, non-ASCII, control bytes, 1 B-20 kB; SMRequest/SMAnswer; SendRaw; SendIQ get/set/result/error) on a real Client (stream management on/off) or Component, connected or not, whose transport Write is readWriter.Write with readWriter = recording socket or the real streamLogger around socket+log, with error-after-n-bytes and short-count faults at random calls of socket and log; logger: Write sequences straight on the stream logger; mem: 2-16 goroutines x 100-500 tiny stanzas on the in-memory recording transport (client SM on, component; logger on/off); tcp: 8-16 goroutines x 50-200 stanzas with unique ids over the real XMPPTransport to a loopback TCP sink that re-parses the byte stream with encoding/xml (client SM on/off, component; traffic log on/off); ws: the same over the real WebsocketTransport to a loopback nhooyr.io/websocket sink (one text message per stanza). distinct = configuration + op-kind/size-class/fault sequence; non-trivial = at least 2 ops reached the transport (seq), 2 writes (logger), 2 senders (mem/tcp/ws)"
+	return "seq: histories of 1-12 ops (Send of Message/Presence/IQ with random attributes and text incl. XML metacharacters, non-ASCII, control bytes, 1 B-20 kB; SMRequest/SMAnswer; SendRaw; SendIQ get/set/result/error) on a real Client (stream management on/off) or Component, connected or not, whose transport Write is readWriter.Write with readWriter = recording socket or the real streamLogger around socket+log, with error-after-n-bytes and short-count faults at random calls of socket and log; logger: Write sequences straight on the stream logger; mem: 2-16 goroutines x 100-500 tiny stanzas on the in-memory recording transport (client SM on, component; logger on/off); tcp: 8-16 goroutines x 50-200 stanzas with unique ids over the real XMPPTransport to a loopback TCP sink that re-parses the byte stream with encoding/xml (client SM on/off, component; traffic log on/off); ws: the same over the real WebsocketTransport to a loopback nhooyr.io/websocket sink (one text message per stanza). wsfault: 1-6 ops on a real Client over the real WebsocketTransport dialled through a TCP connection that fails every write from op k on (the first failing send below and above the library's 4 KiB write buffer): every send from k on must return an error, the earlier ones arrive whole; text pools of every mode contain %, %%, %s, %d, %20, %!. distinct = configuration + op-kind/size-class/fault sequence; non-trivial = at least 2 ops reached the transport (seq), 2 writes (logger), 2 senders (mem/tcp/ws)"
 }
 
 // ---------------------------------------------------------------- content
 
-var c08Pieces = []string{"a", "b", "xyz", " ", "<", ">", "&", "'", "\"", "é", "漢", "😀", "\n", "\t", "\r", "]]>", "&amp;", "<!--", "\x01", "\xff", "0123456789"}
+var c08Pieces = []string{"a", "b", "xyz", " ", "<", ">", "&", "'", "\"", "é", "漢", "😀", "\n", "\t", "\r", "]]>", "&amp;", "<!--", "\x01", "\xff", "0123456789", "%", "%%", "%s", "%d", "%20", "%!", "50% off", "%v%x"}
 
 // c08Text: deterministic text of about n bytes (at least 0) from the seed.
 func c08Text(seed int64, n int) string {
@@ -725,6 +729,199 @@ func c08WSSink() (*c08Sink, error) {
 	return s, nil
 }
 
+// ---- mode wsfault: the real WebsocketTransport over a TCP connection that can be broken
+
+// The websocket library dials through http.DefaultClient; its transport hands out
+// connections whose writes can be switched to fail (pass-through until then).
+type c08FaultConn struct {
+	net.Conn
+	fail int32
+}
+
+func (c *c08FaultConn) Write(p []byte) (int, error) {
+	if atomic.LoadInt32(&c.fail) != 0 {
+		return 0, fmt.Errorf("c08: injected socket write failure (%d bytes not written)", len(p))
+	}
+	return c.Conn.Write(p)
+}
+
+var c08Conns sync.Map // "host:port" dialled -> *c08FaultConn
+
+func init() {
+	t, ok := http.DefaultTransport.(*http.Transport)
+	if !ok {
+		return
+	}
+	t = t.Clone()
+	t.DialContext = func(ctx context.Context, network, addr string) (net.Conn, error) {
+		c, err := (&net.Dialer{}).DialContext(ctx, network, addr)
+		if err != nil {
+			return nil, err
+		}
+		fc := &c08FaultConn{Conn: c}
+		c08Conns.Store(addr, fc)
+		return fc, nil
+	}
+	http.DefaultTransport = t
+}
+
+func (in *c08In) wsAttempted(i int) bool {
+	o := in.Ops[i]
+	return !(o.K == "sendiq" && !o.iqGetSet())
+}
+
+func c08RunWSFault(in *c08In) Sx {
+	sink, err := c08WSSink()
+	if err != nil {
+		return c08Anomaly("harness", "sink: "+err.Error())
+	}
+	defer sink.stop()
+	tc := xmpp.TransportConfiguration{Address: sink.addr, Domain: "localhost", ConnectTimeout: 2}
+	tr := xmpp.NewClientTransport(tc)
+	if _, err := tr.Connect(); err != nil {
+		return c08Anomaly("harness", "connect: "+err.Error())
+	}
+	hostport := strings.TrimSuffix(strings.TrimPrefix(sink.addr, "ws://"), "/xmpp-websocket")
+	v, ok := c08Conns.Load(hostport)
+	if !ok {
+		return c08Anomaly("harness", "the websocket library did not dial through http.DefaultTransport")
+	}
+	c08Conns.Delete(hostport)
+	fc := v.(*c08FaultConn)
+	cfg := &xmpp.Config{TransportConfiguration: tc, Jid: "u@localhost", Credential: xmpp.Password("p"), StreamManagementEnable: in.SM}
+	c, err := xmpp.NewClient(cfg, xmpp.NewRouter(), func(error) {})
+	if err != nil {
+		return c08Anomaly("harness", "newclient: "+err.Error())
+	}
+	xmpp.VerifSetTransport(c, tr)
+	sm := xmpp.SMState{}
+	if in.SM {
+		sm.Id = "smid"
+		sm.UnAckQueue = stanza.NewUnAckQueue()
+	}
+	xmpp.VerifSetSession(c, sm)
+	ctx, cancel := context.WithCancel(context.Background())
+	defer cancel()
+	var res []Sx
+	delivered := 0
+	for i, o := range in.Ops {
+		if i == in.FailFrom {
+			atomic.StoreInt32(&fc.fail, 1) // connection reset / broken pipe, not yet noticed by anybody
+		}
+		var err error
+		chanOK := true
+		switch o.K {
+		case "raw":
+			err = c.SendRaw(o.rawString())
+		case "sendiq":
+			var ch chan stanza.IQ
+			ch, err = c.SendIQ(ctx, o.packet().(*stanza.IQ))
+			chanOK = ch != nil
+		default:
+			err = c.Send(o.packet())
+		}
+		switch {
+		case err == nil && chanOK:
+			res = append(res, L(Z(0)))
+		case err == nil:
+			res = append(res, L(Z(8)))
+		case err == xmpp.ErrCanOnlySendGetOrSetIq:
+			res = append(res, L(Z(3)))
+		default:
+			res = append(res, L(Z(1), Z(0))) // whatever the websocket library calls it: the socket's failure
+		}
+		if i < in.FailFrom && in.wsAttempted(i) {
+			delivered++
+		}
+	}
+	deadline := time.Now().Add(5 * time.Second)
+	for {
+		sink.mu.Lock()
+		n := len(sink.msgs)
+		sink.mu.Unlock()
+		if n >= 1+delivered || time.Now().After(deadline) {
+			break
+		}
+		time.Sleep(time.Millisecond)
+	}
+	time.Sleep(20 * time.Millisecond)
+	sink.mu.Lock()
+	msgs := append([]string{}, sink.msgs...)
+	sink.mu.Unlock()
+	sink.stop()
+	go tr.Close()
+	if len(msgs) == 0 {
+		return c08Anomaly("lost", "nothing received, not even <open/>")
+	}
+	want := in.wsExpected()
+	for j, m := range msgs[1:] {
+		if j < len(want) && m != want[j] {
+			return c08Anomaly("message", fmt.Sprintf("websocket message %d (%d bytes) is not the serialised stanza (%d bytes)", j, len(m), len(want[j])))
+		}
+	}
+	return L(LS(res), SBytes(strings.Join(msgs[1:], "")))
+}
+
+func c08InputWSFault(in *c08In) Sx {
+	ops := make([]Sx, len(in.Ops))
+	k0 := 0
+	for i, o := range in.Ops {
+		if i < in.FailFrom && in.wsAttempted(i) {
+			k0++
+		}
+		switch o.K {
+		case "raw":
+			ops[i] = L(Z(1), SBytes(o.rawString()))
+		case "sendiq":
+			ops[i] = L(Z(2), SBytes(o.data()), c08IQTypeZ(o.Typ))
+		default:
+			ops[i] = L(Z(0), SBytes(o.data()), B(o.nonza()))
+		}
+	}
+	if in.FailFrom >= len(in.Ops) {
+		k0 = len(in.Ops) + 1 // never
+	}
+	return L(Z(3), B(in.SM), Zi(k0), LS(ops))
+}
+
+func (in *c08In) wsExpected() []string {
+	var want []string
+	for i, o := range in.Ops {
+		if i < in.FailFrom && in.wsAttempted(i) {
+			want = append(want, o.data())
+		}
+	}
+	return want
+}
+
+// Model-free oracle: a send issued after the socket broke must return an error; the
+// sends before it return nil and are what the peer received, in order.
+func c08OracleWSFault(in *c08In, obs Sx) (string, string) {
+	if len(obs.L) == 3 && obs.L[0].K == "s" {
+		return "wsfault: " + string(bytesOf(obs.L[2])), "wsfault-" + string(bytesOf(obs.L[1]))
+	}
+	if len(obs.L) != 2 || len(obs.L[0].L) != len(in.Ops) {
+		return "unexpected observation shape", "shape"
+	}
+	for i, o := range in.Ops {
+		r := obs.L[0].L[i].L[0].Z
+		switch {
+		case !in.wsAttempted(i):
+			if r != 3 {
+				return fmt.Sprintf("op %d: SendIQ of type %q was not rejected", i, o.Typ), "rejected-returns-nil"
+			}
+		case i >= in.FailFrom && r == 0:
+			return fmt.Sprintf("op %d (%s, %d bytes) was sent over WebSocket after the TCP connection started failing every write, and returned nil: the failed write is not reported (and the stanza is lost)", i, o.K, len(o.data())), "ws-unreported-failure"
+		case i < in.FailFrom && r != 0:
+			return fmt.Sprintf("op %d (%s) failed on a healthy WebSocket connection", i, o.K), "ws-spurious-error"
+		}
+	}
+	if got, want := string(bytesOf(obs.L[1])), strings.Join(in.wsExpected(), ""); got != want {
+		return fmt.Sprintf("the peer received %d bytes, the sends that returned nil amount to %d bytes", len(got), len(want)), "ws-wire-bytes"
+	}
+	return "", ""
+}
+
 type c08Sent struct {
 	id     string
 	data   string
@@ -762,7 +959,7 @@ func c08StressOp(in *c08In, s, q int) c08Op {
 		// a raw, well-formed element: the text is escaped here, SendRaw sends it as is
 		var b bytes.Buffer
 		xml.EscapeText(&b, []byte(c08Text(o.Seed, n)))
-		o = c08Op{K: "raw", ID: id, Raw: "<message id='" + id + "' type='chat'><body>" + b.String() + "</body></message>"}
+		o = c08Op{K: "raw", ID: id, Raw: "<message id='" + id + "' type='chat'><body>100%" + b.String() + "%d</body></message>"}
 	}
 	return o
 }
@@ -1200,6 +1397,8 @@ func (c08) Run(inp interface{}) Sx {
 		return c08RunLogger(in)
 	case "tcp", "ws", "mem":
 		return c08RunStress(in)
+	case "wsfault":
+		return c08RunWSFault(in)
 	}
 	return L(SBytes("unknown-mode"))
 }
@@ -1211,6 +1410,8 @@ func (c08) Input(inp interface{}) Sx {
 		return c08InputSeq(in)
 	case "logger":
 		return c08InputLogger(in)
+	case "wsfault":
+		return c08InputWSFault(in)
 	}
 	return c08InputStress(in)
 }
@@ -1225,6 +1426,8 @@ func (c08) Oracle(inp interface{}, obs Sx) (string, string) {
 		return c08OracleSeq(in, obs)
 	case "logger":
 		return c08OracleLogger(in, obs)
+	case "wsfault":
+		return c08OracleWSFault(in, obs)
 	}
 	return c08OracleStress(in, obs)
 }
@@ -1253,7 +1456,15 @@ func (c08) Key(inp interface{}) (string, bool) {
 		hist(fmt.Sprintf("stress:%s component=%v sm=%v log=%v", in.Mode, in.Component, in.SM, in.Log))
 		return k, in.Senders >= 2 && in.PerSender >= 2
 	}
+	if in.Mode == "wsfault" {
+		big := in.FailFrom < len(in.Ops) && len(in.Ops[in.FailFrom].data()) >= 4096
+		hist(fmt.Sprintf("wsfault:first-failing-send>=4KiB=%v", big))
+		if in.FailFrom >= len(in.Ops) {
+			hist("wsfault:no-failure")
+		}
+	}
 	var b strings.Builder
+	fmt.Fprintf(&b, "f%d ", in.FailFrom)
 	fmt.Fprintf(&b, "%s c%v sm%v log%v nc%d|", in.Mode, in.Component, in.SM, in.Log, in.Conn)
 	if in.Mode == "seq" {
 		role := "client-sm-off"
@@ -1292,7 +1503,7 @@ func (c08) Key(inp interface{}) (string, bool) {
 
 // ---------------------------------------------------------------- generation
 
-var c08Jids = []string{"", "a@b", "user@localhost/res", "rö@dömain/ré&<s>", "x@y/\"q'"}
+var c08Jids = []string{"", "a@b", "user@localhost/res", "rö@dömain/ré&<s>", "x@y/\"q'", "50%off@d/%s%d"}
 var c08MsgTypes = []string{"", "chat", "normal", "groupchat", "headline", "error"}
 
 func c08GenLen(r *rand.Rand, big bool) int {
@@ -1334,7 +1545,7 @@ func c08GenOp(r *rand.Rand, i int, big bool) c08Op {
 	case c < 16:
 		o = c08Op{K: "sma", H: uint(r.Intn(1000))}
 	default:
-		o = c08Op{K: "raw", Seed: o.Seed, Len: o.Len, Raw: []string{"", "<r xmlns='urn:xmpp:sm:3'/>", "<presence/>", "<message><body>", " ", "</stream:stream>"}[r.Intn(6)]}
+		o = c08Op{K: "raw", Seed: o.Seed, Len: o.Len, Raw: []string{"", "<r xmlns='urn:xmpp:sm:3'/>", "<presence/>", "<message><body>", " ", "</stream:stream>", "100%", "%s %d %%"}[r.Intn(8)]}
 	}
 	return o
 }
@@ -1466,6 +1677,33 @@ func (c08) Gen(r *rand.Rand, tier string) []interface{} {
 				}
 				return 2
 			})
+		}
+		out = append(out, in)
+	}
+	// real WebSocket transport whose TCP connection breaks before op FailFrom
+	nwsf := 16
+	if tier == "thorough" {
+		nwsf = 120
+	}
+	out = append(out,
+		&c08In{Mode: "wsfault", FailFrom: 1, Ops: []c08Op{{K: "msg", ID: "1", Len: 10, Seed: 3}, {K: "msg", ID: "2", Len: 20, Seed: 4}, {K: "msg", ID: "3", Len: 5, Seed: 5}}},
+		&c08In{Mode: "wsfault", FailFrom: 0, SM: true, Ops: []c08Op{{K: "raw", Raw: "<presence/>"}, {K: "sendiq", ID: "2", Typ: "get"}}},
+		&c08In{Mode: "wsfault", FailFrom: 1, Ops: []c08Op{{K: "pres", ID: "1"}, {K: "sendiq", ID: "2", Typ: "set", Len: 30, Seed: 9}}},
+		&c08In{Mode: "wsfault", FailFrom: 1, Ops: []c08Op{{K: "pres", ID: "1"}, {K: "msg", ID: "2", Len: 9000, Seed: 9}, {K: "msg", ID: "3", Len: 3}}},
+	)
+	for i := 0; i < nwsf; i++ {
+		in := &c08In{Mode: "wsfault", SM: r.Intn(2) == 0}
+		nops := 1 + r.Intn(6)
+		for j := 0; j < nops; j++ {
+			o := c08GenOp(r, j, false)
+			if o.K == "smr" || o.K == "sma" {
+				o = c08Op{K: "pres", ID: fmt.Sprint("p", j), Seed: o.Seed}
+			}
+			in.Ops = append(in.Ops, o)
+		}
+		in.FailFrom = r.Intn(nops + 1)
+		if in.FailFrom < nops && r.Intn(4) == 0 { // the large variant: the first failing send exceeds the 4 KiB write buffer
+			in.Ops[in.FailFrom].Len = 5000 + r.Intn(15000)
 		}
 		out = append(out, in)
 	}
